@@ -109,7 +109,7 @@ def produce_lines(model):
         fields = []
         for name in model['header']:
             if name == 'UTIM':
-                fields.append(utim_text(row['when']))
+                fields.append(utim_text(row.get('utim_when', row['when'])))
             elif name == 'DATE':
                 fields.append(date_text(row['when'].date(), *row['date']))
             elif name == 'TIME':
@@ -140,7 +140,7 @@ def expected(model):
         channels.append((name, desc, units))
         if name == 'UTIM':
             kinds.append('datetime')
-            columns.append([row['when'] for row in model['rows']])
+            columns.append([row.get('utim_when', row['when']) for row in model['rows']])
         elif name == 'DATE':
             kinds.append('date')
             columns.append([row['when'].date() for row in model['rows']])
